@@ -4,10 +4,10 @@ package main
 // validations of random / fixture-based stores for TraceChain.tla.
 
 import (
-	"math"
 	"encoding/json"
 	"errors"
 	"fmt"
+	"math"
 	"math/rand"
 	"os"
 	"sort"
